@@ -84,6 +84,28 @@ type BrokerConn struct {
 	noResp  bool
 	headers bool
 	Name    string
+	// StallUntil (simulated time): until then the broker does not look at what
+	// this client sends (a busy broker, a congested path): PUBs and PINGs wait.
+	StallUntil time.Duration
+}
+
+// StallInbound makes the broker ignore this client's input for d from now.
+func (c *BrokerConn) StallInbound(d time.Duration) {
+	c.b.mu.Lock()
+	if u := c.b.s.Now() + d; u > c.StallUntil {
+		c.StallUntil = u
+	}
+	c.b.mu.Unlock()
+}
+
+// Conn returns the broker's end of the i-th client connection.
+func (b *SimBroker) Conn(i int) *BrokerConn {
+	b.mu.Lock()
+	defer b.mu.Unlock()
+	if i < len(b.conns) {
+		return b.conns[i]
+	}
+	return nil
 }
 
 // NewSimBroker creates a broker for this run.
@@ -282,6 +304,12 @@ func (c *BrokerConn) deliverOut() {
 func (c *BrokerConn) processIn() {
 	b := c.b
 	b.mu.Lock()
+	if now := b.s.Now(); c.StallUntil > now && len(c.inQ) > 0 {
+		d := c.StallUntil - now
+		b.mu.Unlock()
+		b.s.AddEvent(fmt.Sprintf("nats:c%02d:in", c.ID), d, c.processIn)
+		return
+	}
 	if len(c.inQ) == 0 {
 		c.inEv = false
 		b.mu.Unlock()
